@@ -122,7 +122,7 @@ PROPS = {
     "C05": _kv("C05", "Full proof on the model: in every reachable store the tombstone column equals 'value IS NULL' (C05_flag_iff_nobody), and every history is accepted by the checker: deletion opcode iff no body, Delete/Remove keep exactly the system xattrs and clear the expiry, a body write onto a body-less key leaves only the supplied xattrs (C05_holds); PurgeTombstones removes exactly the body-less rows (C05_purge on the store, and the trace-level purge rule: C05_holds_with_purge); a document removed by a firing of the expiry timer is left exactly as Delete would leave it - no body, no expiry, only its system xattrs (C05_expiry_is_a_removal: the step checker chk_step_expiry, which applies the row rule of Delete to every document a firing removed, accepts every history of the model; KvExpiry.v).", model_chk=True),
     "C06": _kv("C06", "Full proof on the model: for every history an insert-style write (Add, AddRaw, WriteCas AddOnly / cas 0, WriteResurrectionWithXattrs) succeeds only on a key without a body and a refusal happens only on a key with a body and leaves it untouched; WriteWithXattrs cas 0 succeeds only on an absent key (C06_holds)."),
     "C07": _kv("C07", "Full proof on the model: an xattr-only write changes exactly the named xattrs and keeps body, datatype and (unless given) expiry; a body-only write to a live document keeps its xattrs; a failed call changes nothing (C07_holds; frame lemmas over apply_xattrs / xattrs_remove for all xattr maps and name lists). Macro expansion values are compared exactly by the correspondence (CAS string and CRC32c computed in Coq)."),
-    "C08": _kv("C08", "Sequential part proved in full on the model: every successful CAS-stamping call posts exactly one event equal to the rendering of the document as stored (key, opcode, body, xattrs, datatype bits, CAS, expiry, revision), every failed/refused call and every touch posts none (C08_holds, all histories). Ordering part: Feed.v splits a write into Commit / Snapshot / Push and a feed into Backfill / Register / Deliver / Stop as the code does; the full statement (every interleaving keeps CAS order) is REFUTED on the faithful model with a replayable witness (C08_order_refuted: the known finding KF-C08-order, reproduced on the code by the sched family through the cas.beforePost / post.snapshot hooks); the converse is PROVED for every schedule in which a write's commit, snapshot and push, and a feed's backfill and registration, are not separated by other actions: every run of every feed is in strictly increasing CAS order (C08_order_holds_when_posting_is_atomic, FeedOrder.v) - so the inversion needs exactly that window; and every schedule outside that window is checked: the sched family executes generated action lists on the real code under the hooks and compares deliveries, CAS values and checkpoints exactly with the model.", extra=[{"family": "sched", "chk": "sched_excused_C08", "strict_chk": "sched_strict_C08"}]),
+    "C08": _kv("C08", "A document removed by a firing of the expiry timer gets exactly one event, the rendering of its tombstone (C08_expiry_is_a_removal, KvExpiry.v: every due document is removed exactly once and chk_step_expiry - the row rule of Delete applied to each - accepts every model history). Sequential part proved in full on the model: every successful CAS-stamping call posts exactly one event equal to the rendering of the document as stored (key, opcode, body, xattrs, datatype bits, CAS, expiry, revision), every failed/refused call and every touch posts none (C08_holds, all histories). Ordering part: Feed.v splits a write into Commit / Snapshot / Push and a feed into Backfill / Register / Deliver / Stop as the code does; the full statement (every interleaving keeps CAS order) is REFUTED on the faithful model with a replayable witness (C08_order_refuted: the known finding KF-C08-order, reproduced on the code by the sched family through the cas.beforePost / post.snapshot hooks); the converse is PROVED for every schedule in which a write's commit, snapshot and push, and a feed's backfill and registration, are not separated by other actions: every run of every feed is in strictly increasing CAS order (C08_order_holds_when_posting_is_atomic, FeedOrder.v) - so the inversion needs exactly that window; and every schedule outside that window is checked: the sched family executes generated action lists on the real code under the hooks and compares deliveries, CAS values and checkpoints exactly with the model.", extra=[{"family": "sched", "chk": "sched_excused_C08", "strict_chk": "sched_strict_C08"}]),
     "C09": _kv("C09", "Sequential part proved on the model's store: the backfill of a feed started from CAS s is, in CAS order, exactly the current version of every document of the collection (tombstones included) with CAS >= s (C09_complete, C09_sorted, C09_from_start, for every reachable store: C09_tables_ok), each rendered by the same function as live events (C09_same_rendering, C09_live_equals_stored). The executable trace checker (dump feeds from generated start CAS values: 0, a document's CAS, CAS+1, stale, beyond) is evaluated on implementation traces and on the model's traces; that it accepts every model trace is checked by evaluation, not proved. No-gap half: the full statement is REFUTED on the faithful interleaving model Feed.v with a replayable witness (C09_gap_refuted: the known finding KF-C09-gap, a write committing between the backfill query and registration that reads the feed list before registration), reproduced on the code by the sched family through the feed.preregister / post.snapshot hooks; every schedule outside that window (e.g. a write that commits in the window but posts after registration) is compared exactly with the model: partial.", model_chk=True, extra=[{"family": "sched", "chk": "sched_excused_C09", "strict_chk": "sched_strict_C09"}]),
     "C10": {
         "families": [{"family": "crash"}],
@@ -164,7 +164,7 @@ PROPS = {
         "level_note": "The lock table is transcribed by hand and is not tied to the source mechanically; the scenarios are what watches it. 'Leaked goroutine' is judged from runtime.Stack and the feed counter 150 ms after the store shut down; the terminator-watcher goroutine of a feed whose client never closes its terminator is not counted. Trusted: Coq kernel + vm_compute, Go harness.",
         "assumptions": ["the lock acquisition table of Locks.v matches the Go code (hand-transcribed)", "a watchdog of 5 s distinguishes a deadlock from slowness"],
     },
-    "C17": _kv("C17", "Full proof on the model: every successful mutation through any entry point raises the key's revision number by exactly one (1 on creation or re-creation after purge), failed calls leave it, and live events carry the stored number (C17_holds, all histories)."),
+    "C17": _kv("C17", "A removal by a firing of the expiry timer counts as exactly one mutation (C17_expiry_is_a_removal, KvExpiry.v). Full proof on the model: every successful mutation through any entry point raises the key's revision number by exactly one (1 on creation or re-creation after purge), failed calls leave it, and live events carry the stored number (C17_holds, all histories)."),
     "C03": {
         "families": [{"family": "lin"}, {"family": "kv", "chk": "kv_chk_C03", "corr": "kv_corr_C03", "model_chk": True}],
         "level_text": "Partial. Proved (Conc.v) for every number of threads, every list of updates per thread and every schedule: the read / compute / conditional-write loop that Update, WriteUpdateWithXattrs and the sub-document writes implement loses no update and applies none twice, and a successful write extends exactly the version its callback was shown (C03_no_lost_update, C03_write_on_shown_version, invariant over all reachable configurations). Single-transaction calls (Incr included) are one atomic step of the sequential model. The tie to the code is a Coq-checked linearization certificate: goroutines on 1-3 handles (in-memory and on-disk) run Incr, Get, GetWithXattrs, Remove, Update, WriteCas, WriteUpdateWithXattrs and SetWithMeta against shared keys; the live feed's events sorted by CAS are the claimed order; Lin.v replays that order through the sequential model Kv.kstep and requires every version, every response, every read (no torn body/xattrs), every failed call and the real-time order to be explained, and the callback's shown CAS to be the predecessor's.",
